@@ -67,7 +67,7 @@ type c14Cfg struct {
 }
 
 type c14Fault struct {
-	Kind string `json:"kind"` // none | err | short
+	Kind string `json:"kind"` // none | err | short | full (every byte taken, full count AND an error)
 	K    int    `json:"k"`
 }
 
@@ -214,7 +214,8 @@ var errSinkFault = errors.New("c14: injected destination failure")
 // c14Sink is the destination: fault script of Sink/Model.v (sink_write).
 type c14Sink struct {
 	buf    []byte
-	kind   int // 0 none, 1 error at k, 2 one short count at k
+	kind   int  // 0 none, 1 error at k, 2 one short count at k, 3 full count with an error at k
+	erred  bool // a Write returned a non-nil error
 	k      int
 	fired  bool
 	call   int // index of the API call in progress (set by the driver)
@@ -244,6 +245,7 @@ func (s *c14Sink) write(n int, app func(m int), str bool) (int, error) {
 		if s.hitAt < 0 {
 			s.hitAt = s.call
 		}
+		s.erred = true
 		return m, errSinkFault
 	case 2:
 		if s.fired || pos+n <= s.k {
@@ -255,6 +257,18 @@ func (s *c14Sink) write(n int, app func(m int), str bool) (int, error) {
 		s.fired = true
 		s.hitAt = s.call
 		return m, nil
+	case 3:
+		// the write that takes the byte before offset k: every byte accepted,
+		// full count, and an error (FullErrAt of Sink/Model.v)
+		app(n)
+		if pos < s.k && s.k <= pos+n {
+			if s.hitAt < 0 {
+				s.hitAt = s.call
+			}
+			s.erred = true
+			return n, errSinkFault
+		}
+		return n, nil
 	}
 	app(n)
 	return n, nil
@@ -286,6 +300,8 @@ type c14Outcome struct {
 	Hang  bool
 	Bytes []byte
 	HitAt int
+	// SinkErr: the destination returned a non-nil error from some Write
+	SinkErr bool
 }
 
 func (o *c14Outcome) errKind() string {
@@ -351,6 +367,7 @@ func (env *c14Env) run(sp *c14Spec, cfg c14Cfg, sink *c14Sink, dst io.Writer) *c
 		o.Calls, o.Panic = r.calls, r.p
 		o.Bytes = sink.buf
 		o.HitAt = sink.hitAt
+		o.SinkErr = sink.erred
 		for i, cl := range o.Calls {
 			if cl.Err != nil {
 				o.First = i
@@ -370,6 +387,8 @@ func c14NewSink(f c14Fault) *c14Sink {
 		s.kind = 1
 	case "short":
 		s.kind = 2
+	case "full":
+		s.kind = 3
 	}
 	return s
 }
@@ -647,6 +666,10 @@ func (env *c14Env) check(sp *c14Spec, cfg c14Cfg, lay *c14Layout, f c14Fault, o 
 		c.Violation("silent-loss", fmt.Sprintf("every call returned nil but the destination holds %d bytes which are not the %d bytes of the file: %s", len(o.Bytes), len(lay.ref), where), rp)
 		return false
 	}
+	if o.First < 0 && o.SinkErr {
+		c.Violation("sink-error-dropped", fmt.Sprintf("the destination returned an error from a Write (during %s) and every call of the writer returned nil: %s", lay.calls[min(max(o.HitAt, 0), len(lay.calls)-1)], where), rp)
+		return false
+	}
 	if mv == "" {
 		return true
 	}
@@ -749,6 +772,36 @@ func (env *c14Env) sweep(sp *c14Spec, cfg c14Cfg, lay *c14Layout, kind string, k
 	}
 }
 
+// c14PieceEnds: for the fault "full count with an error": the offset behind the
+// last byte of every Write call of the reference run (the write that takes the
+// byte before k fails), thinned to about limit offsets: the first 4, the last
+// 8 and an even spread of the others.
+func c14PieceEnds(sites [][]c14Piece, n, limit int) []int {
+	set := map[int]bool{}
+	for _, ps := range sites {
+		for _, p := range ps {
+			if k := p.off + p.n; p.n > 0 && k >= 1 && k <= n {
+				set[k] = true
+			}
+		}
+	}
+	all := make([]int, 0, len(set))
+	for k := range set {
+		all = append(all, k)
+	}
+	sort.Ints(all)
+	if len(all) <= limit || limit < 16 {
+		return all
+	}
+	ks := append([]int(nil), all[:4]...)
+	inner := all[4 : len(all)-8]
+	step := float64(len(inner)) / float64(limit-12)
+	for f := 0.0; int(f) < len(inner); f += step {
+		ks = append(ks, inner[int(f)])
+	}
+	return append(ks, all[len(all)-8:]...)
+}
+
 func c14Specs(c *core.Ctx) []c14Spec {
 	specs := []c14Spec{
 		{Name: "tiny", Groups: []int{3}, Batch: 2, V: 2, PageBuf: 4096},
@@ -801,7 +854,7 @@ func runC14(c *core.Ctx) {
 	env.workdir = filepath.Join(c.OutDir, "pools")
 	_ = os.MkdirAll(env.workdir, 0o755)
 	defer os.RemoveAll(env.workdir)
-	c.Res.Rule = "files of 1-3 row groups (int64, dictionary string, optional plain string, repeated int32 columns; v1/v2 pages, snappy/zstd/gzip/none, bloom filters inline and deferred, page index, plaintext-footer and encrypted-footer encryption, MaxRowsPerRowGroup) written through Write batches / Flush / Close against a destination following a fault script: error at byte offset k or one short count with nil error at k; k = every offset (thorough, small files) or first 16, last 64, +-1 around every module boundary of the footer and a random stride (quick; +-2 and denser strides in thorough); x WriteBufferSize {0, 7, 100, default} x page buffers {default, 64-byte chunks, temp files} x bloom filters {inline, deferred in memory, deferred in files}. A case is one (file, configuration, fault); all are non-trivial (the fault lies inside the file). Plus every prefix length of every file through OpenFile + full read under the default file options and under 18 option sets (OptimisticRead x ReadBufferSize 1/7/8/9/64/65536/default, ReadBufferSize 16/64, SkipPageIndex, SkipBloomFilters, PrefetchBloomFilters, async read mode, SkipMagicBytes and combinations; encrypted files also under each of these WITHOUT the keys, complete file included: an error, never a panic; the data of every file plants trailers ending in PAR1 and in PARE; error class of the open compared with the model of the open stages under these options), ReadAt faults at every call index, File.ReadAt against the model, and failing page buffers. Copy path: every unencrypted file is copied with WriteRowGroup (same options, so that every column chunk is streamed from the source) x WriteBufferSize {0, 7, 100, default} x bloom filters {copied inline, deferred in memory, deferred in files}; each copied section (dictionary page, data pages, bloom filter) in turn delivers only {0, 1, n/2, n-1} of its n bytes exactly when it is copied; destination faults at the module boundaries of the copy and a stride. Reader's demand: the (offset, length) of every ReadAt of OpenFile + full read with ReadBufferSize {default, 64, 16} against the model's demand. Sources failing AFTER OpenFile x SeekToRow histories (seek.go): dedicated files whose column chunks hold many small pages (v1 and v2 pages, none/snappy, 1-2 row groups, one encrypted; thorough adds zstd, gzip, three row groups, encrypted footer) opened with and without page index (SkipPageIndex) x ReadBufferSize {default, 64}; then the source loses its tail (first byte, middle of the header, first, middle and last byte of the body of every page) or one ReadAt call fails (error, short count with io.EOF / io.ErrUnexpectedEOF / another error; every call of the history); read after one SeekToRow a third / two thirds into the row group or to its last row, or after a short seek, one batch and a seek far ahead, through the Pages of the column chunk, GenericReader with 1 and 17 rows per call and the deprecated Reader; predicate: what is delivered differs from what the same history delivers over the intact source only together with a non-EOF error, and is a prefix of it; model: seek_read_pages (pages returned, end | unexpected) for the Pages of a chunk after one seek over a truncated source."
+	c.Res.Rule = "files of 1-3 row groups (int64, dictionary string, optional plain string, repeated int32 columns; v1/v2 pages, snappy/zstd/gzip/none, bloom filters inline and deferred, page index, plaintext-footer and encrypted-footer encryption, MaxRowsPerRowGroup) written through Write batches / Flush / Close against a destination following a fault script: error at byte offset k, one short count with nil error at k, or the full count WITH an error from the one write that takes the byte before k (every byte accepted; one k inside every Write call of the fault-free reference run, thinned to about 32 (20 behind large buffers and file-backed page buffers) per configuration in the quick tier; main path and copy path; predicate: the destination returned an error => some call returns an error); for the first two kinds k = every offset (thorough, small files) or first 16, last 64, +-1 around every module boundary of the footer and a random stride (quick; +-2 and denser strides in thorough); x WriteBufferSize {0, 7, 100, default} x page buffers {default, 64-byte chunks, temp files} x bloom filters {inline, deferred in memory, deferred in files}. A case is one (file, configuration, fault); all are non-trivial (the fault lies inside the file). Plus every prefix length of every file through OpenFile + full read under the default file options and under 18 option sets (OptimisticRead x ReadBufferSize 1/7/8/9/64/65536/default, ReadBufferSize 16/64, SkipPageIndex, SkipBloomFilters, PrefetchBloomFilters, async read mode, SkipMagicBytes and combinations; encrypted files also under each of these WITHOUT the keys, complete file included: an error, never a panic; the data of every file plants trailers ending in PAR1 and in PARE; error class of the open compared with the model of the open stages under these options), ReadAt faults at every call index, File.ReadAt against the model, and failing page buffers. Copy over a source that lost its tail (every module boundary +-1 and a stride): WriteRowGroup per row group with the same options (verbatim), with another codec (column-wise re-encode) and of one MultiRowGroup over all row groups (segments packed column-wise); nil everywhere => the output reads back complete; after a failure three more rows are written and the writer closed: nil from both => the output reads back as the rows reported written plus the three. Copy path: every unencrypted file is copied with WriteRowGroup (same options, so that every column chunk is streamed from the source) x WriteBufferSize {0, 7, 100, default} x bloom filters {copied inline, deferred in memory, deferred in files}; each copied section (dictionary page, data pages, bloom filter) in turn delivers only {0, 1, n/2, n-1} of its n bytes exactly when it is copied; destination faults at the module boundaries of the copy and a stride. Reader's demand: the (offset, length) of every ReadAt of OpenFile + full read with ReadBufferSize {default, 64, 16} against the model's demand. Sources failing AFTER OpenFile x SeekToRow histories (seek.go): dedicated files whose column chunks hold many small pages (v1 and v2 pages, none/snappy, 1-2 row groups, one encrypted; thorough adds zstd, gzip, three row groups, encrypted footer) opened with and without page index (SkipPageIndex) x ReadBufferSize {default, 64}; then the source loses its tail (first byte, middle of the header, first, middle and last byte of the body of every page) or one ReadAt call fails (error, short count with io.EOF / io.ErrUnexpectedEOF / another error; every call of the history); read after one SeekToRow a third / two thirds into the row group or to its last row, or after a short seek, one batch and a seek far ahead, through the Pages of the column chunk, GenericReader with 1 and 17 rows per call and the deprecated Reader; predicate: what is delivered differs from what the same history delivers over the intact source only together with a non-EOF error, and is a prefix of it; model: seek_read_pages (pages returned, end | unexpected) for the Pages of a chunk after one seek over a truncated source. Bloom filter lookups over a source failing after OpenFile (bloom.go): files with filters on id and name (plain, gzip-compressed, encrypted) opened with default / SkipBloomFilters / PrefetchBloomFilters; then the reads starting in the filter section of one row group, or of every row group, fail ((0, err), or at most 3 bytes with io.EOF / io.ErrUnexpectedEOF / another error); first and last id of every row group, two absent ids, three stored names and an absent one are looked up through the filter of each chunk, BloomFilterFrom, MultiRowGroup, MergeRowGroups and ConvertRowGroup over all row groups; predicate: a stored value is never answered (false, nil), a failed read gives an error, also after the source recovered; model: c14.bloom (absent | maybe | failed from the per-filter clean answers, the faulted filter and whether answering takes a read). Wrapped destinations (wrappers.go): Filter/Transform/Dedupe/Multi row writers, their nesting, CopyRows / CopyPages / CopyValues over a destination failing at each of its calls with (0, err) | (n/2, err) | (n, err): some call of the caller returns an error."
 
 	if c.HasOracle() {
 		if ans := c.Ask("c14.flags"); !strings.HasSuffix(ans, " 1") || strings.Contains(strings.Split(ans, " ")[0], "0") {
@@ -826,6 +879,7 @@ func runC14(c *core.Ctx) {
 			ks := []int{1, 2, 3, lay.footerAt, lay.footerAt + 1, (lay.footerAt + n) / 2, n - 9, n - 8, n - 4, n - 1}
 			env.sweep(sp, cfg, lay, "short", ks, "corpus")
 			env.sweep(sp, cfg, lay, "err", ks, "corpus")
+			env.sweep(sp, cfg, lay, "full", ks, "corpus")
 			c.Sample(map[string]any{"file": sp.Name, "bytes": n, "sites": len(lay.sites), "fault": "short", "offsets": ks, "cfg": cfg})
 			vmLayout = lay
 		}
@@ -890,6 +944,16 @@ func runC14(c *core.Ctx) {
 			bucket := fmt.Sprintf("sink/buf=%d/pool=%s/deferred=%s", cfg.Buf, cfg.Pool, cfg.Deferred)
 			env.sweep(sp, cfg, lay, "err", ks, bucket)
 			env.sweep(sp, cfg, lay, "short", ks, bucket)
+			// full count with an error: one offset in every Write call of the reference run
+			var pcs [][]c14Piece
+			for _, st := range lay.sites {
+				pcs = append(pcs, st.pieces)
+			}
+			limit := c.N(32, 400)
+			if c.Quick() && (cfg.Pool == "file" || cfg.Buf == -1 || cfg.Buf == 100) {
+				limit = 20 // behind a large buffer many Write calls share one flush
+			}
+			env.sweep(sp, cfg, lay, "full", c14PieceEnds(pcs, n, limit), bucket)
 		}
 		// reader side on the reference bytes of the default configuration
 		if lay := layouts["default/"]; lay != nil {
@@ -905,6 +969,15 @@ func runC14(c *core.Ctx) {
 			tm("readAtFaults", func() { env.readAtFaults(sp, lay) })
 			tm("copyTruncated", func() { env.copyTruncated(sp, lay) })
 			tm("copySweep", func() { env.copySweep(sp, lay.ref) })
+			if si <= 1 {
+				tm("wrappers", func() { env.wrappers(sp, lay.ref) })
+			}
+			tm("bloomLookups", func() {
+				env.bloomLookups(sp, false)
+				if sp.Name == "two-groups-bloom" || sp.Name == "encrypted" || !c.Quick() {
+					env.bloomLookups(sp, true)
+				}
+			})
 			// the reader's demand against the model: exact with buffers longer than
 			// every field of a page header, inside the declared ranges otherwise
 			if sp.Enc == 0 {
@@ -947,7 +1020,7 @@ func runC14(c *core.Ctx) {
 		sp := &specs[0]
 		n := len(vmLayout.ref)
 		for _, buf := range []int{0, 7, 100} {
-			for _, kind := range []string{"err", "short"} {
+			for _, kind := range []string{"err", "short", "full"} {
 				for _, k := range []int{0, 1, 3, 4, 5, 37, n / 3, n / 2, vmLayout.footerAt - 1, vmLayout.footerAt, vmLayout.footerAt + 9, n - 9, n - 8, n - 1} {
 					if k < 0 || k >= n {
 						continue
@@ -971,6 +1044,9 @@ func runC14(c *core.Ctx) {
 					fl := fmt.Sprintf("(ErrAt %d)", k)
 					if kind == "short" {
 						fl = fmt.Sprintf("(ShortAt %d)", k)
+					}
+					if kind == "full" {
+						fl = fmt.Sprintf("(FullErrAt %d)", k)
 					}
 					vmCases = append(vmCases, fmt.Sprintf("(%s, %s, (%d, %d, %s))%%nat", bs, fl, code, call, core.CoqBool(bytes.Equal(o.Bytes, vmLayout.ref))))
 				}
@@ -1412,7 +1488,13 @@ func (env *c14Env) copyTruncated(sp *c14Spec, lay *c14Layout) {
 		ts = append(ts, t)
 	}
 	sort.Ints(ts)
-	for _, same := range []bool{true, false} {
+	for mi, same := range []bool{true, false, false} {
+		// the third pass: every row group in ONE call, WriteRowGroup(MultiRowGroup(...)),
+		// whose segments are packed column by column into one output row group
+		multi := mi == 2
+		if multi && len(sp.Groups) < 2 {
+			continue
+		}
 		dsp := *sp
 		if !same {
 			if dsp.Codec == "snappy" {
@@ -1427,8 +1509,13 @@ func (env *c14Env) copyTruncated(sp *c14Spec, lay *c14Layout) {
 			}
 			r := &c14FaultyReaderAt{data: ref, at: -1, limit: -1}
 			rp := c14Replay{What: "copy-truncated", Spec: *sp, Call: -1, Mode: map[bool]string{true: "same-options", false: "other-codec"}[same], L: t}
+			if multi {
+				rp.Mode = "other-codec-multi"
+			}
 			var out bytes.Buffer
-			var werr error
+			var werr, lateErr error
+			var reported []c14Row // the rows the WriteRowGroup calls reported as written
+			countsOK := true
 			panicked := ""
 			func() {
 				defer func() {
@@ -1439,17 +1526,38 @@ func (env *c14Env) copyTruncated(sp *c14Spec, lay *c14Layout) {
 				f, err := parquet.OpenFile(r, int64(n))
 				if err != nil {
 					werr = err
+					lateErr = err
 					return
 				}
 				r.limit = t
 				w := parquet.NewGenericWriter[c14Row](&out, env.options(&dsp, c14Cfg{Buf: -1, Pool: "default"})...)
-				for _, rg := range f.RowGroups() {
-					if _, err := w.WriteRowGroup(rg); err != nil && werr == nil {
+				groups := sp.rows()
+				srcGroups := f.RowGroups()
+				if multi {
+					srcGroups = []parquet.RowGroup{parquet.MultiRowGroup(srcGroups...)}
+					groups = [][]c14Row{want}
+				}
+				for g, rg := range srcGroups {
+					k, err := w.WriteRowGroup(rg)
+					if err != nil && werr == nil {
 						werr = err
 					}
+					if g < len(groups) && k >= 0 && k <= int64(len(groups[g])) && len(groups) == len(srcGroups) {
+						reported = append(reported, groups[g][:k]...)
+					} else {
+						countsOK = false
+					}
 				}
-				if err := w.Close(); err != nil && werr == nil {
-					werr = err
+				if werr != nil {
+					// the writer is used further after the failed calls: rows of the caller, then Close
+					_, lateErr = w.Write(c14LateRows)
+				}
+				cerr := w.Close()
+				if cerr != nil && werr == nil {
+					werr = cerr
+				}
+				if lateErr == nil {
+					lateErr = cerr
 				}
 			}()
 			outcome := "error"
@@ -1463,6 +1571,17 @@ func (env *c14Env) copyTruncated(sp *c14Spec, lay *c14Layout) {
 					c.Violation("copy-truncated-silent", fmt.Sprintf("file %s copied with WriteRowGroup (%s) while only the first %d of %d bytes of the source can be read: WriteRowGroup and Close returned nil, the output (%d bytes) reads back %d of %d rows (err=%v %s)", sp.Name, rp.Mode, t, n, out.Len(), len(rows), len(want), err, p), rp)
 				}
 			}
+			if panicked == "" && werr != nil && lateErr == nil && countsOK {
+				// WriteRowGroup failed, the later Write and Close returned nil: a nil
+				// error from Close means a complete file, holding the rows the calls
+				// reported as written and the later ones
+				outcome = "error-then-complete"
+				exp := append(append([]c14Row(nil), reported...), c14LateRows...)
+				rows, _, err, p := env.readAll(&dsp, bytes.NewReader(out.Bytes()), int64(out.Len()))
+				if err != nil || p != "" || !c14RowsEqual(rows, exp) {
+					c.Violation("copy-truncated-writer-state", fmt.Sprintf("file %s copied with WriteRowGroup (%s) while only the first %d of %d bytes of the source can be read: WriteRowGroup failed (%v) after reporting %d rows written in all; Write of %d more rows and Close then returned nil, but the output (%d bytes) reads back %d rows which are not those %d (err=%v %s)", sp.Name, rp.Mode, t, n, werr, len(reported), len(c14LateRows), out.Len(), len(rows), len(exp), err, p), rp)
+				}
+			}
 			if r.hits == 0 {
 				outcome = "not-reached"
 			}
@@ -1470,6 +1589,12 @@ func (env *c14Env) copyTruncated(sp *c14Spec, lay *c14Layout) {
 		}
 	}
 }
+
+// c14LateRows are written by the caller after a WriteRowGroup failed.
+var c14LateRows = func() []c14Row {
+	t := "late"
+	return []c14Row{{ID: -11, Name: "alpha"}, {ID: -12, Name: "late-name", Tag: &t, Vals: []int32{7, 8}}, {ID: -13, Name: "beta", Vals: []int32{9}}}
+}()
 
 // c14FaultyReaderAt injects one fault at a call index, or a truncation.
 type c14FaultyReaderAt struct {
@@ -1984,6 +2109,15 @@ func replayC14(c *core.Ctx, raw json.RawMessage) {
 		var crp c14CopyReplay
 		if err := json.Unmarshal(raw, &crp); err == nil {
 			env.replayCopy(crp)
+		}
+	case "wrapper":
+		if lay, err := env.layout(sp, c14Cfg{Buf: -1, Pool: "default"}); err == nil {
+			env.wrappers(sp, lay.ref)
+		}
+	case "bloom":
+		var brp c14BloomReplay
+		if err := json.Unmarshal(raw, &brp); err == nil {
+			env.bloomLookups(&brp.Spec, brp.Gzip)
 		}
 	}
 }
